@@ -98,13 +98,27 @@ Qed.
 Print Assumptions C08_enc_symbols_fail_or_exact.
 
 (** DecodeSymbols on arbitrary bytes (any version, count, component count, any bytes in front): the model decoder
-    never makes an out-of-bounds access ([Oob]: the probability table, the symbol lookup, the 4-byte tail read of
-    RAnsDecoder::read_init that may start in front of the block) and never leaves the modelled domain ([Unmod]),
+    never makes an out-of-bounds access ([Oob]: the probability table, the symbol lookup) and never leaves the
+    modelled domain ([Unmod]),
     for buffers below 2^26 bytes; all its loops are structural recursions, so it terminates by construction. *)
 Theorem C08_dec_symbols_total : forall ver n nc pre bs, (forall b, In b bs -> 0 <= b) -> zlen bs < 2 ^ 26 ->
   safe (dec_symbols ver n nc pre bs).
 Proof. exact dec_symbols_total. Qed.
 Print Assumptions C08_dec_symbols_total.
+
+(** On arbitrary bytes, for every count and component count, a successful DecodeSymbols returns exactly
+    num_values values (the tagged scheme rejects counts that are not a multiple of num_components, commit 6105d6f;
+    before that it stored ceil(n / nc) * nc values). *)
+Theorem C08_dec_symbols_length_uncond : forall ver n nc pre bs syms r,
+  dec_symbols ver n nc pre bs = Ok (syms, r) -> length syms = n.
+Proof. exact dec_symbols_length_uncond. Qed.
+Print Assumptions C08_dec_symbols_length_uncond.
+
+(** The same with the (now redundant) divisibility hypotheses, as used by Proofs/SeqCodecInst_proofs.v. *)
+Theorem C08_dec_symbols_length : forall ver n nc pre bs syms r, (1 <= nc)%nat -> (exists k, n = (k * nc)%nat) ->
+  dec_symbols ver n nc pre bs = Ok (syms, r) -> length syms = n.
+Proof. exact dec_symbols_length. Qed.
+Print Assumptions C08_dec_symbols_length.
 
 (** Non-vacuity. *)
 Example C08_example_raw :
